@@ -78,6 +78,8 @@ class Context:
 
     def check_floors(self) -> None:
         for rule in self.rules:
+            if rule.findings:
+                continue  # a rule that reports a violation is not passing vacuously
             if rule.obligations < rule.floor:
                 raise AnalysisError(
                     f"rule {rule.rule_id} ({rule.title}) matched {rule.obligations} instance(s), "
